@@ -631,6 +631,7 @@ func TestChild(t *testing.T) {
 				seqCase(t, col, name, rng)
 			case "nested-probe":
 				nestedProbe(t, col, name, rng)
+				prefixKeyInTxnLayer(t, col, name, rng)
 			case "conc", "race":
 				concHistory(col, name, rng)
 			}
